@@ -522,6 +522,33 @@ func richCerts() []*built {
 		der.Seq(der.OID(2, 5, 29, 32, 0), der.Seq(der.Seq(der.OID(1, 3, 6, 1, 5, 5, 7, 2, 2), der.Seq(der.UTF8("notice text"))))))}}})
 	mk("nc-other-name-kinds-noncritical", pki.Tmpl{Exts: []pki.Ext{pki.ExtBasicConstraints(true, true), {OID: oidNC, Value: der.Seq(
 		der.ImplicitCons(0, der.Seq(dirName), der.Seq(gn(2, []byte("example.com")))))}}})
+	// critical name constraints: every pairing of a permitted list and an excluded list drawn from
+	// {absent, interpreted forms only, an uninterpreted form only, both}; a constraint of an uninterpreted form
+	// anywhere leaves the critical extension unhandled, wherever the other list stands
+	{
+		dnsT, mailT, ipT := der.Seq(gn(2, []byte("example.com"))), der.Seq(gn(1, []byte(".example.org"))), der.Seq(gn(7, []byte{10, 0, 0, 0, 255, 0, 0, 0}))
+		dirT, otherT, regT := der.Seq(dirName), der.Seq(otherName), der.Seq(regID)
+		lists := []struct {
+			n string
+			l [][]byte
+		}{{"absent", nil}, {"dns", [][]byte{dnsT}}, {"mail+ip", [][]byte{mailT, ipT}}, {"dirname", [][]byte{dirT}}, {"dns+dirname", [][]byte{dnsT, dirT}},
+			{"othername+dns", [][]byte{otherT, dnsT}}, {"regid", [][]byte{regT}}}
+		for _, pl := range lists {
+			for _, el := range lists {
+				if pl.l == nil && el.l == nil {
+					continue
+				}
+				var parts [][]byte
+				if pl.l != nil {
+					parts = append(parts, der.ImplicitCons(0, pl.l...))
+				}
+				if el.l != nil {
+					parts = append(parts, der.ImplicitCons(1, el.l...))
+				}
+				mk("nc-critical-permitted-"+pl.n+"-excluded-"+el.n, pki.Tmpl{Exts: []pki.Ext{pki.ExtBasicConstraints(true, true), {OID: oidNC, Critical: true, Value: der.Seq(parts...)}}})
+			}
+		}
+	}
 	mk("unique-ids", pki.Tmpl{IssuerUID: []byte{0xaa, 0xbb}, Exts: []pki.Ext{pki.ExtSKI(skiBytes)}})
 	mk("eku-critical-any", pki.Tmpl{Exts: []pki.Ext{{OID: pki.OIDEKU, Critical: true, Value: der.Seq(der.OID(pki.OIDEKUAny...), der.OID(1, 3, 6, 1, 5, 5, 7, 3, 3), der.OID(1, 3, 6, 1, 5, 5, 7, 3, 4), der.OID(1, 3, 6, 1, 5, 5, 7, 3, 8))}}})
 	mk("ku-all-nine-bits", pki.Tmpl{Exts: []pki.Ext{{OID: pki.OIDKeyUsage, Critical: true, Value: der.BitString([]byte{0xff, 0x80}, 7)}}})
